@@ -28,23 +28,23 @@ import sysgen
 
 LEAN_MODULE = "PydjinniModel.Props.C14"
 THEOREMS = [
-    "Pydjinni.Gen.join_rel_parts",
-    "Pydjinni.Gen.genRel_relative",
-    "Pydjinni.Gen.writes_under_out",
-    "Pydjinni.Gen.no_double_prefix",
-    "Pydjinni.Gen.legacy_loader_doubled",
-    "Pydjinni.Sys.norm_append_clean",
-    "Pydjinni.Sys.resolve_under_out",
-    "Pydjinni.Sys.run_header",
-    "Pydjinni.Sys.run_source",
-    "Pydjinni.Sys.report_eq_log",
-    "Pydjinni.Sys.report_keys_exact",
-    "Pydjinni.Sys.report_inputs_exact",
-    "Pydjinni.Sys.log_exact",
-    "Pydjinni.Sys.clean_only_out_dirs",
-    "Pydjinni.Sys.genStep_preserves_outside",
-    "Pydjinni.Sys.runTargets_preserves_outside",
-    "Pydjinni.Sys.runTargets_creates_only_writes",
+    "Pydjinni.GenC.join_rel_parts",
+    "Pydjinni.GenC.genRel_relative",
+    "Pydjinni.GenC.writes_under_out",
+    "Pydjinni.GenC.no_double_prefix",
+    "Pydjinni.GenC.legacy_loader_doubled",
+    "Pydjinni.SysC.norm_append_clean",
+    "Pydjinni.SysC.resolve_under_out",
+    "Pydjinni.SysC.run_header",
+    "Pydjinni.SysC.run_source",
+    "Pydjinni.SysC.report_eq_log",
+    "Pydjinni.SysC.report_keys_exact",
+    "Pydjinni.SysC.report_inputs_exact",
+    "Pydjinni.SysC.log_exact",
+    "Pydjinni.SysC.clean_only_out_dirs",
+    "Pydjinni.SysC.genStep_preserves_outside",
+    "Pydjinni.SysC.runTargets_preserves_outside",
+    "Pydjinni.SysC.runTargets_creates_only_writes",
 ]
 LEVEL = "proof"
 TRUSTED = ["sysworker.py adapter: dumps of the validated configuration and of the parser's declaration list are the model's inputs",
